@@ -764,3 +764,181 @@ Lemma io_nonvacuous :
   /\ snd (generate_io cfg_ok s_mock_client fs_ok) = FailIO Mocks
   /\ (length (filter (sunder pR) (touched fs_ok (plan_io cfg_ok_force s_client_py fs_ok))) > 30)%nat.
 Proof. repeat split; vm_compute; try reflexivity; lia. Qed.
+
+(* ---------- the process is killed between two file operations (no clean-up runs) ---------- *)
+Theorem noforce_untouched_killed : forall c k s n,
+  wf_tmp c = true ->
+  restrict_root c (exec s (firstn n (plan_main c true k))) = restrict_root c s.
+Proof.
+  intros c k s n Hw. unfold restrict_root.
+  change (fun kv : path * entry => under (root c) (fst kv)) with (inr (root c)).
+  pose proof (plan_diff_outside c k Hw) as HF. apply Forall_app in HF. destruct HF as [HF1 _].
+  apply exec_outside. apply Forall_firstn. exact HF1.
+Qed.
+
+Theorem noforce_untouched_killed_io : forall c name s n,
+  wf_tmp c = true -> wf_log c = true ->
+  force c = false -> exists_b s (out_dir c) = true ->
+  restrict_root c (exec s (firstn n (plan_io c name s))) = restrict_root c s.
+Proof.
+  intros c name s n Hw Hl Hf He. unfold plan_io, io_run.
+  assert (Hd : diff_mode c s = true) by (unfold diff_mode; rewrite Hf, He; reflexivity).
+  rewrite Hd. unfold restrict_root.
+  change (fun kv : path * entry => under (root c) (fst kv)) with (inr (root c)).
+  apply exec_outside. apply Forall_firstn. apply Forall_app. split.
+  - apply (io_plan_Forall (op_outside (root c)) name c).
+    + intros p q. apply outside_closed.
+    + intro st. apply error_log_outside. exact Hl.
+    + pose proof (plan_diff_outside c None Hw) as HF. apply Forall_app in HF. apply HF.
+  - destruct (true && valid_pkgs c); [|constructor].
+    constructor; [|constructor]. simpl. destruct (wf_tmp_split c Hw) as [H1 H2]. split; assumption.
+Qed.
+
+(* ---------- the environment assumptions, reduced to more primitive facts ---------- *)
+(* every ancestor of an existing path exists *)
+Definition closed_fs (s : fs) : Prop :=
+  forall p q, exists_b s p = true -> q <> [] -> under q p = true -> exists_b s q = true.
+
+Record env_ok (c : config) (s : fs) : Prop := {
+  env_tmpdir : under (root c) (sys_tmp c) = false;   (* tempfile.gettempdir() is not the project root nor inside it *)
+  env_child  : tmp c <> [];                          (* mkdtemp: a child of gettempdir() ... *)
+  env_fresh  : exists_b s (tmp c) = false;           (* ... that did not exist before *)
+  env_root   : lookup (root c) s = Some Dir;         (* the project root is an existing directory *)
+  env_closed : closed_fs s;
+  env_log1   : lookup (sys_tmp c ++ [s_error_log]) s <> Some Dir;        (* the log files are not directories *)
+  env_log2   : lookup (sys_tmp c ++ [s_mocks_error_log]) s <> Some Dir
+}.
+
+Lemma under_snoc : forall r a x, under r (a ++ [x]) = true -> under r a = true \/ r = a ++ [x].
+Proof.
+  induction r as [|y r IH]; intros a x H.
+  - left. reflexivity.
+  - destruct a as [|z a]; simpl in *.
+    + apply andb_true_iff in H. destruct H as [E H]. apply str_eqb_eq in E. subst.
+      destruct r; [right; reflexivity | discriminate].
+    + apply andb_true_iff in H. destruct H as [E H]. apply str_eqb_eq in E. subst. rewrite str_eqb_refl. simpl.
+      destruct (IH a x H) as [H1|H1]; [left; exact H1 | right; subst; reflexivity].
+Qed.
+
+Lemma env_wf : forall c s, env_ok c s -> wf_tmp c = true /\ wf_log c = true.
+Proof.
+  intros c s [Ht Hc Hf Hr Hcl Hl1 Hl2].
+  assert (Hex : exists_b s (root c) = true) by (unfold exists_b; rewrite Hr; reflexivity).
+  assert (Htmp : tmp c = sys_tmp c ++ [last (tmp c) []]) by (unfold sys_tmp; apply app_removelast_last; exact Hc).
+  assert (Hlog : forall nm, lookup (sys_tmp c ++ [nm]) s <> Some Dir -> under (root c) (sys_tmp c ++ [nm]) = false).
+  { intros nm Hnm. destruct (under (root c) (sys_tmp c ++ [nm])) eqn:E; [|reflexivity].
+    destruct (under_snoc _ _ _ E) as [H|H]; [congruence|]. rewrite <- H in Hnm. congruence. }
+  split.
+  - unfold wf_tmp. apply andb_true_iff. split; apply negb_true_iff.
+    + destruct (under (root c) (tmp c)) eqn:E; [|reflexivity]. rewrite Htmp in E.
+      destruct (under_snoc _ _ _ E) as [H|H]; [congruence|].
+      rewrite <- Htmp in H. rewrite H in Hex. congruence.
+    + destruct (under (tmp c) (root c)) eqn:E; [|reflexivity].
+      rewrite (Hcl (root c) (tmp c) Hex Hc E) in Hf. discriminate.
+  - unfold wf_log. rewrite (Hlog _ Hl1), (Hlog _ Hl2). reflexivity.
+Qed.
+
+Theorem noforce_untouched_env : forall c k s,
+  env_ok c s -> force c = false -> exists_b s (out_dir c) = true ->
+  restrict_root c (fst (generate c k s)) = restrict_root c s.
+Proof. intros c k s He. destruct (env_wf c s He) as [Hw _]. apply noforce_untouched. exact Hw. Qed.
+
+(* ---------- where the paths of the resulting file system come from ---------- *)
+Definition paths (s : fs) : list path := map fst s.
+
+Lemma paths_set : forall s q e p, In p (paths (set s q e)) -> p = q \/ In p (paths s).
+Proof.
+  induction s as [|[q' e'] s IH]; intros q e p H; simpl in *.
+  - destruct H as [H|[]]. left. auto.
+  - destruct (path_eqb q q') eqn:E; simpl in H.
+    + destruct H as [H|H]; auto.
+    + destruct H as [H|H]; auto. apply IH in H. tauto.
+Qed.
+
+Lemma paths_filter : forall (f : path * entry -> bool) s p, In p (paths (filter f s)) -> In p (paths s).
+Proof.
+  intros f s p H. unfold paths in *. apply in_map_iff in H. destruct H as [kv [E H]].
+  apply filter_In in H. destruct H as [H _]. apply in_map_iff. exists kv. auto.
+Qed.
+
+Lemma exists_b_In : forall s p, exists_b s p = true -> In p (paths s).
+Proof.
+  unfold exists_b. induction s as [|[q e] s IH]; intros p H; simpl in *; [discriminate|].
+  destruct (path_eqb p q) eqn:E.
+  - left. apply list_eqb_str_eq in E. auto.
+  - right. apply IH. exact H.
+Qed.
+
+Lemma paths_mkdirs : forall l s p, In p (paths (fold_left mkdir1 l s)) -> In p (paths s) \/ In p l.
+Proof.
+  induction l as [|q l IH]; intros s p H; simpl in *; [left; exact H|].
+  apply IH in H. destruct H as [H|H]; [|right; right; exact H].
+  unfold mkdir1 in H. destruct (exists_b s q); [left; exact H|].
+  unfold paths in H. rewrite map_app in H. apply in_app_or in H. destruct H as [H|[H|[]]]; [left; exact H|].
+  right. left. exact H.
+Qed.
+
+Lemma apply_paths : forall s op p, In p (paths (apply_op s op)) ->
+  In p (paths s) \/ In p (op_touched s op) \/ p = mem_slot.
+Proof.
+  intros s op p H. destruct op as [q t|q t|q|q|q|q|q]; simpl in *.
+  - apply paths_set in H. destruct H as [H|H]; [right; left; left; auto | left; exact H].
+  - destruct (exists_b s q); [left; exact H|].
+    apply paths_set in H. destruct H as [H|H]; [right; left; left; auto | left; exact H].
+  - left. eapply paths_filter. exact H.
+  - apply paths_mkdirs in H. destruct H as [H|H]; [left; exact H|].
+    destruct (exists_b s p) eqn:E; [left; apply exists_b_In; exact E|].
+    right. left. apply filter_In. split; [exact H | rewrite E; reflexivity].
+  - left. eapply paths_filter. exact H.
+  - destruct (lookup q s).
+    + apply paths_set in H. destruct H as [H|H]; [right; right; exact H | left; exact H].
+    + left. eapply paths_filter. exact H.
+  - unfold exists_b. destruct (lookup mem_slot s).
+    + apply paths_set in H. destruct H as [H|H]; [right; left; left; auto | left; eapply paths_filter; exact H].
+    + left. exact H.
+Qed.
+
+Lemma exec_paths : forall pl s p, In p (paths (exec s pl)) ->
+  In p (paths s) \/ In p (touched s pl) \/ p = mem_slot.
+Proof.
+  unfold exec. induction pl as [|[st op] pl IH]; intros s p H; simpl in *; [left; exact H|].
+  apply IH in H. destruct H as [H|[H|H]].
+  - apply apply_paths in H. destruct H as [H|[H|H]]; [left; exact H | right; left; apply in_or_app; left; exact H | right; right; exact H].
+  - right. left. apply in_or_app. right. exact H.
+  - right. right. exact H.
+Qed.
+
+Lemma generate_is_exec : forall c k s, fst (generate c k s) = exec s (plan c k s).
+Proof. intros c k s. unfold generate, plan, exec. cbn [fst]. rewrite fold_left_app. reflexivity. Qed.
+
+Lemma sunder_mem_slot : forall r, sunder r mem_slot = false.
+Proof. intro r. unfold sunder, mem_slot. destruct r; reflexivity. Qed.
+
+(* every path strictly below the root after a call was there before or is an allowed path of the call *)
+Theorem generate_paths : forall c k s p,
+  wf_tmp c = true ->
+  In p (paths (fst (generate c k s))) -> sunder (root c) p = true ->
+  In p (paths s) \/ allowed c p = true.
+Proof.
+  intros c k s p Hw Hin Hs. rewrite generate_is_exec in Hin. apply exec_paths in Hin.
+  destruct Hin as [H|[H|H]].
+  - left. exact H.
+  - right. eapply contained; eauto.
+  - subst. rewrite sunder_mem_slot in Hs. discriminate.
+Qed.
+
+(* ---------- the command line entry ---------- *)
+(* a plain run (no --force) over an existing output package leaves the project untouched *)
+Theorem cli_default_untouched : forall c a k s,
+  wf_tmp c = true -> a_force a = None ->
+  exists_b s (out_dir (cli_config c a)) = true ->
+  restrict_root c (fst (generate (cli_config c a) k s)) = restrict_root c s.
+Proof.
+  intros c a k s Hw Hf He.
+  change (restrict_root c) with (restrict_root (cli_config c a)).
+  apply noforce_untouched; [exact Hw | simpl; rewrite Hf; reflexivity | exact He].
+Qed.
+
+Lemma cli_defaults : forall c a, a_force a = None -> a_no_postprocess a = None ->
+  force (cli_config c a) = false /\ post (cli_config c a) = true /\ core_pkg (cli_config c a) <> None.
+Proof. intros c a H1 H2. simpl. rewrite H1, H2. repeat split. discriminate. Qed.
